@@ -28,7 +28,7 @@ print(json.dumps([t2tie._summary_only(r) for r in recs]))
 
 def env_summaries(recs, schema):
     p = subprocess.run(["/venv/bin/python", "-W", "ignore", "-c", HELPER], input=json.dumps(recs), capture_output=True, text=True,
-                       env=impl_env(0, {"SQLLINEAGE_DEFAULT_SCHEMA": schema, "PYTHONPATH": "/repo:/verif/harness"}))
+                       env=impl_env(0, {"SQLLINEAGE_DEFAULT_SCHEMA": schema, "PYTHONPATH": os.environ.get("VERIF_REPO", "/repo") + ":/verif/harness"}))
     if p.returncode != 0:
         raise RuntimeError(p.stderr[-2000:])
     return json.loads(p.stdout.strip().splitlines()[-1])
